@@ -77,15 +77,58 @@ func (r *bitsetRunner) Step(t []string) string {
 		case "copy":
 			r.regs[t[2]] = x.Copy()
 			return "ok"
-		case "equal":
+		case "equal", "equalx":
 			return boolStr(x.Equal(y))
-		case "in":
+		case "in", "inx":
 			return boolStr(x.In(y))
 		case "notin":
 			return boolStr(x.NotIn(y))
 		}
 	}
 	return "bad-op"
+}
+
+// wordTracker follows len(bits) of every register so that the generator can tell whether `Equal`/`In`
+// are asked about operands of different word counts (ops `equalx`/`inx`: the as-coded answers are
+// known to deviate from set semantics there) or not (`equal`/`in`: must agree with set semantics).
+type wordTracker map[string]int
+
+func (w wordTracker) apply(line string) {
+	var op, x, y string
+	var p int
+	if n, _ := fmt.Sscanf(line, "%s %s %d", &op, &x, &p); n == 3 && op == "set" {
+		if p/64+1 > w[x] {
+			w[x] = p/64 + 1
+		}
+		return
+	}
+	if n, _ := fmt.Sscanf(line, "%s %s %s", &op, &x, &y); n == 3 && op == "copy" {
+		w[y] = w[x]
+		return
+	}
+	if n, _ := fmt.Sscanf(line, "%s %s", &op, &x); n == 2 {
+		switch op {
+		case "new":
+			w[x] = 1
+		case "zero":
+			w[x] = 0
+		}
+	}
+}
+
+func (w wordTracker) equal(x, y string) string {
+	if w[x] == w[y] {
+		return fmt.Sprintf("equal %s %s", x, y)
+	}
+	return fmt.Sprintf("equalx %s %s", x, y)
+}
+
+// in: x.In(y) — y is the mask
+func (w wordTracker) in(x, y string) string {
+	if w[y] <= w[x] {
+		return fmt.Sprintf("in %s %s", x, y)
+	}
+	return fmt.Sprintf("inx %s %s", x, y)
 }
 
 func bitsetGen(rng *proto.RNG, tier string, shard, nshards int, w *bufio.Writer) {
@@ -105,7 +148,7 @@ func bitsetGen(rng *proto.RNG, tier string, shard, nshards int, w *bufio.Writer)
 	}
 	alpha = append(alpha, "zero a", "copy a b")
 	seq := make([]int, 0, maxLen)
-	tail := []string{"bits a", "bits b", "words a", "words b", "key a", "equal a b", "equal b a", "in a b", "in b a", "notin a b", "notin b a",
+	tail := []string{"bits a", "bits b", "words a", "words b", "key a", "notin a b", "notin b a",
 		"isset a 0", "isset a 63", "isset a 64", "isset b 130", "isset b 131", "isset a 9999"}
 	var rec func()
 	rec = func() {
@@ -115,9 +158,12 @@ func bitsetGen(rng *proto.RNG, tier string, shard, nshards int, w *bufio.Writer)
 				return
 			}
 			lines := []string{"new a", "new b"}
+			wt := wordTracker{"a": 1, "b": 1}
 			for _, a := range seq {
 				lines = append(lines, alpha[a])
+				wt.apply(alpha[a])
 			}
+			lines = append(lines, wt.equal("a", "b"), wt.equal("b", "a"), wt.in("a", "b"), wt.in("b", "a"))
 			lines = append(lines, tail...)
 			e.emit(lines)
 			return
@@ -136,11 +182,18 @@ func bitsetGen(rng *proto.RNG, tier string, shard, nshards int, w *bufio.Writer)
 	regs := []string{"a", "b", "c", "d"}
 	for i := 0; i < nRandom; i++ {
 		var lines []string
+		wt := wordTracker{}
+		add := func(ls ...string) {
+			for _, l := range ls {
+				lines = append(lines, l)
+				wt.apply(l)
+			}
+		}
 		for _, n := range regs {
 			if rng.Intn(4) == 0 {
-				lines = append(lines, "zero "+n)
+				add("zero " + n)
 			} else {
-				lines = append(lines, "new "+n)
+				add("new " + n)
 			}
 		}
 		pmax := []int{5, 70, 200, 3000}[rng.Intn(4)]
@@ -154,26 +207,27 @@ func bitsetGen(rng *proto.RNG, tier string, shard, nshards int, w *bufio.Writer)
 			x, y := regs[rng.Intn(4)], regs[rng.Intn(4)]
 			switch rng.Pick(30, 15, 10, 5, 8, 8, 8, 4, 2, 2) {
 			case 0:
-				lines = append(lines, fmt.Sprintf("set %s %d", x, pos()))
+				add(fmt.Sprintf("set %s %d", x, pos()))
 			case 1:
-				lines = append(lines, fmt.Sprintf("clear %s %d", x, pos()))
+				add(fmt.Sprintf("clear %s %d", x, pos()))
 			case 2:
-				lines = append(lines, fmt.Sprintf("isset %s %d", x, pos()))
+				add(fmt.Sprintf("isset %s %d", x, pos()))
 			case 3:
-				lines = append(lines, "bits "+x)
+				add("bits " + x)
 			case 4:
-				lines = append(lines, fmt.Sprintf("equal %s %s", x, y))
+				add(wt.equal(x, y))
 			case 5:
-				lines = append(lines, fmt.Sprintf("in %s %s", x, y))
+				add(wt.in(x, y))
 			case 6:
-				lines = append(lines, fmt.Sprintf("notin %s %s", x, y))
+				add(fmt.Sprintf("notin %s %s", x, y))
 			case 7:
-				lines = append(lines, fmt.Sprintf("copy %s %s", x, y))
+				add(fmt.Sprintf("copy %s %s", x, y))
 			case 8:
-				lines = append(lines, "key "+x, "words "+x)
+				add("key "+x, "words "+x)
 			case 9:
 				// subset construction: copy then add — `in` must be true afterwards
-				lines = append(lines, fmt.Sprintf("copy %s %s", x, y), fmt.Sprintf("set %s %d", y, pos()), fmt.Sprintf("in %s %s", y, x))
+				add(fmt.Sprintf("copy %s %s", x, y), fmt.Sprintf("set %s %d", y, pos()))
+				add(wt.in(y, x))
 			}
 		}
 		for _, n := range regs {
